@@ -30,7 +30,7 @@ class C02(Prop):
         n = 70 if tier == 'quick' else 2000
         sc, st = history_workload(rnd, n, (8, 24) if tier == 'quick' else (10, 40), bad=0.1,
                                   before=['check c02-pre a {line}'], after=['check c02-post a'],
-                                  ops=dict(point=2, faces=4, basis=5, delete=3, restrict=1.5, subdiv=1.5, addfrom=2, delb=1, dels=1, ensure=0.5, relabel1=1.2, relabel=0.4))
+                                  ops=dict(point=2, faces=4, basis=5, delete=3, restrict=1.5, subdiv=1.5, addfrom=2.5, delb=1, dels=1, ensure=0.5, relabel1=1.2, relabel=0.4, dupfaces=1.5, dupbasis=0.7))
         scripts += sc; merge_stats(stats, st)
         # (b) exhaustive: every small complex x every applicable request
         N = 4 if tier == 'quick' else 5
